@@ -274,16 +274,25 @@ def narrow(R, P):
     eq_int = [t for t, pol in g_int if pol and "==" in t and "int_value" in t]
     R.check(len(eq_int) == 1 and eq_int[0] in ("(value==(double)int_value)", "((double)int_value==value)"), "NARROW", "integer-iff-exact", where(f, uint[0]), "integer form exactly when value == (double)(int64_t)value",
             "the exact-integer test is %s" % [t for t, p in g_int])
+    # the double -> int64 conversion is defined only for values strictly below 2^63 and at or above -2^63.  The bounds are
+    # compared AS DOUBLES: (double)INT64_MAX rounds up to 2^63, so `value <= (double)INT64_MAX` admits 2^63 itself
     lo_ok = hi_ok = False
+    hi_txt = lo_txt = None
     for c_, pol, b in RU.guards(f, uint[0], dom):
         n_ = f.d(c_)
         if pol and n_ is not None and n_["k"] == "bin" and f.show(RU.uncast(f, n_["a"][0])) == "value":
             k_ = f.is_const(RU.uncast(f, n_["a"][1]))
-            if n_["op"] == "<=" and k_ == 2 ** 63 - 1:
-                hi_ok = True
-            if n_["op"] == ">=" and k_ == -2 ** 63:
-                lo_ok = True
-    R.check(lo_ok and hi_ok, "NARROW", "integer-range-guard", where(f, uint[0]), "the cast to int64 happens only inside [INT64_MIN, INT64_MAX]")
+            if k_ is None:
+                continue
+            kd = float(k_)  # the comparison is made in double
+            if n_["op"] in ("<", "<="):
+                hi_txt = f.show(n_)
+                hi_ok = hi_ok or (n_["op"] == "<" and kd <= 2.0 ** 63) or (n_["op"] == "<=" and kd < 2.0 ** 63)
+            if n_["op"] in (">", ">="):
+                lo_txt = f.show(n_)
+                lo_ok = lo_ok or kd >= -(2.0 ** 63)
+    R.check(lo_ok and hi_ok, "NARROW", "integer-range-guard", where(f, uint[0]), "the cast to int64 happens only for -2^63 <= value < 2^63 (%s, %s)" % (lo_txt, hi_txt),
+            "the range test before (int64_t)value is `%s` / `%s`; compared as doubles the upper bound is %s, so the value 2^63 itself reaches the conversion, which is undefined for it (it yields INT64_MIN on x86-64 and INT64_MAX where the conversion saturates - there 2^63 is written as the integer 2^63 - 1)" % (lo_txt, hi_txt, "2^63 inclusive" if hi_txt else "missing"))
     R.check(argstr(f, neg[0].node, 1).replace(" ", "") in ("(uint64_t)(-1-int_value)", "(unsignedlong)(-1-int_value)", "(-1-int_value)"), "NARROW", "negative-mapping", where(f, neg[0]), "negative n is written as -1-n",
             "negative integers are written as %s" % argstr(f, neg[0].node, 1))
     g_neg = guard_txt(neg[0])
@@ -508,6 +517,7 @@ def analyse(ctx, replace=None, only=None):
 
 
 MUTANTS = [dict(_m, scope={"stream": True}) for _m in cbor_stream.MUTANTS] + [
+    {"name": "float-range-guard-admits-2-pow-63", "file": FILE, "expect": "NARROW", "old": "    if (value < (double)INT64_MAX && value >= (double)INT64_MIN) {", "new": "    if (value <= (double)INT64_MAX && value >= (double)INT64_MIN) {"},
     {"name": "type-only-position-read-before-reserve", "file": FILE, "expect": "ROOM",
      "old": "    /* All inf start takes 1 byte only */\n    aws_byte_buf_reserve_smart_relative(&encoder->encoded_buf, 1);\n    size_t encoded_len = 0;\n    switch (type) {\n        case AWS_CBOR_TYPE_INDEF_BYTES_START:\n            encoded_len = cbor_encode_indef_bytestring_start(\n                s_get_encoder_current_position(encoder), s_get_encoder_remaining_len(encoder));",
      "new": "    uint8_t *position = s_get_encoder_current_position(encoder);\n    size_t remaining_len = s_get_encoder_remaining_len(encoder);\n    aws_byte_buf_reserve_smart_relative(&encoder->encoded_buf, 1);\n    size_t encoded_len = 0;\n    switch (type) {\n        case AWS_CBOR_TYPE_INDEF_BYTES_START:\n            encoded_len = cbor_encode_indef_bytestring_start(position, remaining_len);"},
